@@ -1721,7 +1721,9 @@ class Interp:
             self.effects.append(Effect("<return>", (), "guard-return", self.ev(rv, env) if rv is not None else None, [(pp(s["cond"]), True)], s.get("line")))
             self.guards.append((pp(s["cond"]), False))
             return
-        raise Unsupported("undecided branch %s (line %s)" % (pp(s["cond"])[:80], s.get("line")))
+        ex_ = Unsupported("undecided branch %s (line %s)" % (pp(s["cond"])[:80], s.get("line")))
+        ex_.cond = c          # the condition as the interpreter sees it (aliases resolved to the members they denote)
+        raise ex_
 
     # -- case analysis of index / size guards ---------------------------------------
     def _generic(self, e):
